@@ -25,9 +25,8 @@ class QUICOutputbuilder:
             self.server_port = self.default_port
 
     def build(self, metadata: bool):
-        pn = self.decrypted_traffic[0].src_packet.packet_num
-        ts = self.decrypted_traffic[0].src_packet.ts
-        isserver = self.decrypted_traffic[0].src_packet.isserver
+        ts = None
+        isserver = None
         packets = bytearray()
         for frame in self.decrypted_traffic:
             data = None
@@ -35,52 +34,56 @@ class QUICOutputbuilder:
                 if frame.frame_type == 0x06:
                     data = frame.crypto
                 elif frame.frame_type == 0xfe:
-                    data = frame.supported_version
+                    data = frame.payload
             if frame.frame_type in [0x08, 0x09, 0x0a, 0x0b, 0x0c, 0x0d, 0x0e, 0x0f]:
                 data = frame.stream_data
             elif data is None:
                 continue
 
-            if frame.src_packet.packet_num == pn:
+            if ts is None:
+                # first frame that carries data
+                ts = frame.src_packet.ts
+                isserver = frame.src_packet.isserver
+
+            # frames belong to the same output datagram iff they came in the same input datagram
+            if frame.src_packet.ts == ts and frame.src_packet.isserver == isserver:
                 packets.extend(data)
                 continue
-            else:  # if packets number changes
-                if frame.src_packet.ts == ts:  # if same ts => same datagram
-                    pn = frame.src_packet.packet_num
-                    packets.extend(data)
-                    continue
-                else:  # if not same ts => different datagram
-                    if isserver:
-                        if not self.ipv6:
-                            packet = Ether(src=self.server_mac_address, dst=self.client_mac_address) / IP(
-                                src=self.server_ip,
-                                dst=self.client_ip) / UDP(
-                                dport=self.client_port, sport=self.server_port) / Raw(bytes(packets))
-                        else:
-                            packet = Ether(src=self.server_mac_address, dst=self.client_mac_address) / IPv6(
-                                src=self.server_ip,
-                                dst=self.client_ip) / UDP(
-                                dport=self.client_port, sport=self.server_port) / Raw(bytes(packets))
-
+            else:  # different datagram
+                if isserver:
+                    if not self.ipv6:
+                        packet = Ether(src=self.server_mac_address, dst=self.client_mac_address) / IP(
+                            src=self.server_ip,
+                            dst=self.client_ip) / UDP(
+                            dport=self.client_port, sport=self.server_port) / Raw(bytes(packets))
                     else:
-                        if not self.ipv6:
-                            packet = Ether(src=self.client_mac_address, dst=self.server_mac_address) / IP(
-                                src=self.client_ip,
-                                dst=self.server_ip) / UDP(
-                                dport=self.server_port, sport=self.client_port) / Raw(bytes(packets))
-                        else:
-                            packet = Ether(src=self.client_mac_address, dst=self.server_mac_address) / IPv6(
-                                src=self.client_ip.encode(),
-                                dst=self.server_ip.encode()) / UDP(
-                                dport=self.server_port, sport=self.client_port) / Raw(bytes(packets))
+                        packet = Ether(src=self.server_mac_address, dst=self.client_mac_address) / IPv6(
+                            src=self.server_ip,
+                            dst=self.client_ip) / UDP(
+                            dport=self.client_port, sport=self.server_port) / Raw(bytes(packets))
 
-                    self.out.append((packet, ts))
+                else:
+                    if not self.ipv6:
+                        packet = Ether(src=self.client_mac_address, dst=self.server_mac_address) / IP(
+                            src=self.client_ip,
+                            dst=self.server_ip) / UDP(
+                            dport=self.server_port, sport=self.client_port) / Raw(bytes(packets))
+                    else:
+                        packet = Ether(src=self.client_mac_address, dst=self.server_mac_address) / IPv6(
+                            src=self.client_ip.encode(),
+                            dst=self.server_ip.encode()) / UDP(
+                            dport=self.server_port, sport=self.client_port) / Raw(bytes(packets))
 
-                    pn = frame.src_packet.packet_num
-                    ts = frame.src_packet.ts
-                    isserver = frame.src_packet.isserver
-                    packets = bytearray()
-                    packets.extend(data)
+                self.out.append((packet, ts))
+
+                ts = frame.src_packet.ts
+                isserver = frame.src_packet.isserver
+                packets = bytearray()
+                packets.extend(data)
+
+        if ts is None:
+            # no frame carried data that is exported
+            return self.out
 
         if isserver:
             if not self.ipv6:
